@@ -18,10 +18,10 @@ from rv import atoms as AT
 from rv import common as C
 from rv import contracts
 
-N_CASES = {'quick': 480, 'thorough': 8000}
+N_CASES = {'quick': 1200, 'thorough': 8000}
 TIMEOUT = {'quick': 1500, 'thorough': 6 * 3600}
 ANCHORS = ['gcp:GCProg.to_socp', 'ro:Model.soc_solve', 'dro:Model.soc_solve']
-FLOORS = {'judged': {'quick': 250, 'thorough': 4500}, 'nontrivial': 40,
+FLOORS = {'judged': {'quick': 625, 'thorough': 4500}, 'nontrivial': 40,
           'counters': {'accuracy_comparisons': 500, 'structure_checks': 250}}
 RULE = ('models with exp, log, pexp, plog, entropy, softplus, summed exp/log, kldiv and expcone '
         'constraints (pinned-argument and free, alone or among LP/SOC atoms, ro and dro front '
